@@ -111,6 +111,9 @@ def str_to_time(time_str):
     :return: integer POSIX time
     :rtype: int
     """
+    if time_str is None:
+        # no time stored (the validator reports this as "date is not set")
+        return None
     if isinstance(time_str, bytes):
         time_str = time_str.decode()
     dt = datetime.strptime(time_str, "%Y%m%dT%H%M%S") - datetime(1970, 1, 1)
